@@ -253,6 +253,8 @@ def generate(rng: random.Random, tier: str) -> dict:
     dch = [rng.choice([1, 2, 3, 5, 7, 16, 64]), rng.choice([1, 2, 3, 5, 7, 16, 64])]
     if mode == "cross-global":
         dch = list(rng.choice([[45, 90], [45, 45], [5, 90], [15, 30], [10, 36], [30, 30], [7, 16]]))
+        if g_tpl.startswith("world-dst") and rng.random() < 0.4:
+            dch = list(rng.choice([[45, 90], [5, 90], [14, 90]]))  # a destination chunk as wide as the world
     tch = rng.choice([1, max(tdim, 1)])
     src_irregular = None
     if rng.random() < 0.12 and sny >= 4 and snx >= 4:
